@@ -248,6 +248,11 @@ impl Resolver {
 //@ fn sylt-compiler/src/name_resolution.rs namespace_type_list
 //@   in Resolver
 //@   mode assumed
+//@   ret r
+//@   spec
+        // assumed (read off the body: every failure is one raise_resolution_error!)
+        ensures r is Err ==> r->Err_0.len() >= 1,
+//@   endspec
 //@ end
 //@ fn sylt-compiler/src/name_resolution.rs type_vec
 //@   in Resolver
@@ -259,6 +264,7 @@ impl Resolver {
         requires self.inv(), //# C07 type_vec.pre.ids_in_range
             forall|i: int| 0 <= i < parser_tys@.len() ==> sylt_parser::pt_ok(#[trigger] parser_tys@[i]), //# C07 type_vec.pre.written_types_are_translatable
         ensures r is Ok ==> forall|i: int| 0 <= i < r->Ok_0@.len() ==> rt_up(#[trigger] r->Ok_0@[i], self.variables@.len() as int), //# C07 type_vec.resolved_types_are_translatable
+            r is Err ==> r->Err_0.len() >= 1, //# C07 type_vec.an_error_result_is_never_an_empty_list
 //@   endspec
 //@   loop 1 binder it
             invariant
@@ -275,6 +281,7 @@ impl Resolver {
         requires self.inv(), //# C07 ty.pre.ids_in_range
             sylt_parser::pt_ok(*ty), //# C07 ty.pre.written_type_is_translatable
         ensures r is Ok ==> rt_up(r->Ok_0, self.variables@.len() as int), //# C07 ty.resolved_type_is_translatable
+            r is Err ==> r->Err_0.len() >= 1, //# C07 ty.an_error_result_is_never_an_empty_list
 //@   endspec
 //@   ghost entry
         let ghost n = self.variables@.len() as int;
@@ -302,6 +309,7 @@ impl Resolver {
                 _ => r is Err && r->Err_0.len() == 1 && r->Err_0[0].span() == span,
             }), //# C09 lookup.then_file_globals_else_error_at_use
             r is Ok ==> (r->Ok_0 as int) < self.variables@.len(), //# C07,C09 lookup.result_id_in_range
+            r is Err ==> r->Err_0.len() >= 1, //# C07 lookup.an_error_result_is_never_an_empty_list
 //@   endspec
 //@   ghost entry
         proof { if innermost(self.stack@, name@) is Some { lemma_innermost_in_stack(self.stack@, name@); } }
@@ -335,6 +343,7 @@ impl Resolver {
             self.inv(), //# C07 ty_assignable.pre.ids_in_range
         ensures r is Ok ==> r->Ok_0 is UserType, //# C07 ty_assignable.returns_user_type
             r is Ok ==> (r->Ok_0->UserType_0 as int) < self.variables@.len(), //# C07 ty_assignable.result_id_in_range
+            r is Err ==> r->Err_0.len() >= 1, //# C07 ty_assignable.an_error_result_is_never_an_empty_list
 //@   endspec
 //@ end
 
@@ -401,6 +410,7 @@ impl Resolver {
                 r->Ok_0 is Read && old(self).global_of(old(self).ns_of(assignable.span.file_id, *assignable.kind->Access_0)->Some_0, assignable.kind->Access_1.name@)
                     == Some(Name::Name(r->Ok_0->Read_var)), //# C09 assignable.qualified_name_is_the_module_global_never_a_local
             r is Ok ==> rel_a(*assignable, r->Ok_0), //# C14 assignable.result_is_the_desugared_tree
+            r is Err ==> r->Err_0.len() >= 1, //# C07 assignable.an_error_result_is_never_an_empty_list
 //@   endspec
 //@   ghost entry
         broadcast use group_up;
@@ -452,6 +462,7 @@ impl Resolver {
             r is Ok ==> e_shape(r->Ok_0), //# C07 collection.result_shape
             r is Ok ==> r->Ok_0 is Collection && r->Ok_0->Collection_collection == collection && r->Ok_0->Collection_values@.len() == expr@.len()
                 && forall|i: int| 0 <= i < expr@.len() ==> rel_e(#[trigger] expr@[i], r->Ok_0->Collection_values@[i]), //# C14 collection.members_in_order
+            r is Err ==> r->Err_0.len() >= 1, //# C07 collection.an_error_result_is_never_an_empty_list
 //@   endspec
 //@   ghost entry
         broadcast use group_up;
@@ -487,6 +498,7 @@ impl Resolver {
             r is Ok ==> e_up(r->Ok_0, final(self).variables@.len() as int), //# C07,C09 binop.result_ids_in_range
             r is Ok ==> e_shape(r->Ok_0), //# C07 binop.result_shape
             r is Ok ==> r->Ok_0 is BinOp && r->Ok_0->BinOp_op == op && rel_e(*a, *r->Ok_0->BinOp_a) && rel_e(*b, *r->Ok_0->BinOp_b), //# C14 binop.result_shape_of_operands
+            r is Err ==> r->Err_0.len() >= 1, //# C07 binop.an_error_result_is_never_an_empty_list
 //@   endspec
 //@   ghost entry
         broadcast use group_up;
@@ -513,6 +525,7 @@ impl Resolver {
             r is Ok ==> e_up(r->Ok_0, final(self).variables@.len() as int), //# C07,C09 uniop.result_ids_in_range
             r is Ok ==> e_shape(r->Ok_0), //# C07 uniop.result_shape
             r is Ok ==> r->Ok_0 is UniOp && r->Ok_0->UniOp_op == op && rel_e(*a, *r->Ok_0->UniOp_a), //# C14 uniop.result_shape_of_operand
+            r is Err ==> r->Err_0.len() >= 1, //# C07 uniop.an_error_result_is_never_an_empty_list
 //@   endspec
 //@   ghost entry
         broadcast use group_up;
@@ -539,6 +552,7 @@ impl Resolver {
             r is Ok ==> ib_up(r->Ok_0, final(self).variables@.len() as int), //# C07,C09 if_branch.result_ids_in_range
             r is Ok ==> ib_shape(r->Ok_0), //# C07 if_branch.result_shape
             r is Ok ==> rel_ib(*branch, r->Ok_0), //# C14 if_branch.condition_shape
+            r is Err ==> r->Err_0.len() >= 1, //# C07 if_branch.an_error_result_is_never_an_empty_list
 //@   endspec
 //@   ghost entry
         broadcast use group_up;
@@ -578,6 +592,7 @@ impl Resolver {
             final(self).inv(), //# C07 case_branch.keeps_ids_in_range
             r is Ok ==> cb_up(r->Ok_0, final(self).variables@.len() as int), //# C07,C09 case_branch.result_ids_in_range
             r is Ok ==> cb_shape(r->Ok_0), //# C07 case_branch.result_shape
+            r is Err ==> r->Err_0.len() >= 1, //# C07 case_branch.an_error_result_is_never_an_empty_list
 //@   endspec
 //@   ghost entry
         broadcast use group_up;
@@ -610,6 +625,7 @@ impl Resolver {
             final(self).inv(), //# C07 block.keeps_ids_in_range
             r is Ok ==> all_up(r->Ok_0@, final(self).variables@.len() as int), //# C07,C09 block.result_ids_in_range
             r is Ok ==> forall|i: int| 0 <= i < r->Ok_0@.len() ==> s_shape(#[trigger] r->Ok_0@[i]), //# C07 block.result_shape
+            r is Err ==> r->Err_0.len() >= 1, //# C07 block.an_error_result_is_never_an_empty_list
 //@   endspec
 //@   ghost entry
         broadcast use group_up;
@@ -644,6 +660,7 @@ impl Resolver {
             r is Ok ==> e_shape(r->Ok_0), //# C07 expression.result_shape
             r is Ok && expr.kind is Int ==> r->Ok_0 is Int, //# C07 expression.int_literal_stays_int_literal
             r is Ok ==> rel_e(*expr, r->Ok_0), //# C14 expression.result_is_the_desugared_tree
+            r is Err ==> r->Err_0.len() >= 1, //# C07 expression.an_error_result_is_never_an_empty_list
 //@   endspec
 //@   ghost entry
         broadcast use group_up;
@@ -764,6 +781,7 @@ impl Resolver {
             r is Ok && r->Ok_0 is Some ==> s_shape(r->Ok_0->Some_0), //# C07 statement.result_shape
             r is Ok && r->Ok_0 is Some && r->Ok_0->Some_0 is Blob ==> fields_tys(r->Ok_0->Some_0->Blob_fields@, final(self).variables@.len() as int), //# C07 statement.field_types_of_a_blob_declaration_are_translatable
             r is Ok && r->Ok_0 is Some && r->Ok_0->Some_0 is Enum ==> fields_tys(r->Ok_0->Some_0->Enum_variants@, final(self).variables@.len() as int), //# C07 statement.variant_types_of_an_enum_declaration_are_translatable
+            r is Err ==> r->Err_0.len() >= 1, //# C07 statement.an_error_result_is_never_an_empty_list
 //@   endspec
 //@   ghost entry
         broadcast use group_up, vstd::std_specs::hash::group_hash_axioms;
